@@ -969,6 +969,439 @@ static int sch_ped(sess_t *s) {
 	return 0;
 }
 
+
+/*============================================================================*/
+/* Batch 3: threshold / same-message-linkable ring signatures, cmlhs, mpss, shpe, MPC forms   */
+/*============================================================================*/
+
+static etrs_t tr_a[NSESS][4], tr_b[NSESS][4];
+static smlers_t sm_a[NSESS][3], sm_b[NSESS][3];
+static int b3_ready = 0;
+static shpe_t sh_pub[NSESS], sh_prv[NSESS];
+static pt_t pc_tri[NSESS][2];
+static mt_t mt3[NSESS][3][2];
+static g1_t mg1[NSESS][8];
+static g2_t mg2[NSESS][8];
+static gt_t mgt[NSESS][8];
+static void b3_init(void) {
+	if (b3_ready) return;
+	for (int i = 0; i < NSESS; i++) {
+		for (int j = 0; j < 4; j++) { etrs_null(tr_a[i][j]); etrs_new(tr_a[i][j]); etrs_null(tr_b[i][j]); etrs_new(tr_b[i][j]); }
+		for (int j = 0; j < 3; j++) { smlers_null(sm_a[i][j]); smlers_new(sm_a[i][j]); smlers_null(sm_b[i][j]); smlers_new(sm_b[i][j]); }
+		shpe_null(sh_pub[i]); shpe_null(sh_prv[i]); shpe_new(sh_pub[i]); shpe_new(sh_prv[i]);
+		for (int j = 0; j < 2; j++) { pt_null(pc_tri[i][j]); pt_new(pc_tri[i][j]); }
+		for (int a = 0; a < 3; a++) { for (int j = 0; j < 2; j++) { mt_null(mt3[i][a][j]); mt_new(mt3[i][a][j]); } }
+		for (int j = 0; j < 8; j++) {
+			g1_null(mg1[i][j]); g1_new(mg1[i][j]); g2_null(mg2[i][j]); g2_new(mg2[i][j]); gt_null(mgt[i][j]); gt_new(mgt[i][j]);
+		}
+	}
+	b3_ready = 1;
+}
+
+/* ---- extendable threshold ring signature: opt[4] = number of extensions (0..2), max = 4 ---- */
+static int sch_etrs(sess_t *s) {
+	size_t ext = (size_t)(s->opt[4] % 3);
+	char name[12];
+	b3_init();
+	etrs_t *ra = tr_a[s->sid], *rb = tr_b[s->sid];
+	/* td[] b[4..7], y[] b[8..11]; keys sk b[0..2], pk e[1..3]; pp e[0] */
+	switch (s->phase) {
+		case 0:
+			log_rc(s, "genpp", cp_ers_gen(s->e[0]));
+			for (int i = 0; i < 3; i++) { log_rc(s, "genkey", cp_ers_gen_key(s->b[i], s->e[1 + i])); }
+			return 1;
+		case 1:
+			log_rc(s, "sig", cp_etrs_sig(s->b + 4, s->b + 8, 4, ra[0], s->msg, s->msg_len, s->b[0], s->e[1], s->e[0]));
+			s->blen[5] = 1;
+			return 1;
+		case 2: {
+			size_t size = 1;
+			for (size_t j = 1; j <= ext; j++) {
+				int rc = cp_etrs_ext(s->b + 4, s->b + 8, 4, (etrs_t *)ra, &size, s->msg, s->msg_len, s->e[1 + j], s->e[0]);
+				log_rc(s, "ext", rc);
+				if (rc != RLC_OK) break;
+			}
+			s->blen[5] = size;
+			s->blen[4] = size - 1;			/* entries of td/y consumed by the extensions */
+			return 1;
+		}
+		case 3: {
+			int ok = 1;
+			size_t size = s->blen[5], used = s->blen[4];
+			ok &= xmit_ec(s, "pp", s->e[5], s->e[0], (int)s->opt[1]);
+			for (size_t i = used; i < 4; i++) {
+				snprintf(name, sizeof(name), "td%zu", i); ok &= xmit_bn(s, name, s->b[12 + i], s->b[4 + i], 0);
+				snprintf(name, sizeof(name), "y%zu", i); ok &= xmit_bn(s, name, s->b[16 + i], s->b[8 + i], 0);
+			}
+			for (size_t i = 0; i < size; i++) {
+				snprintf(name, sizeof(name), "ry%zu", i); ok &= xmit_bn(s, name, rb[i]->y, ra[i]->y, 0);
+				snprintf(name, sizeof(name), "h%zu", i); ok &= xmit_ec(s, name, rb[i]->h, ra[i]->h, (int)s->opt[1]);
+				snprintf(name, sizeof(name), "pk%zu", i); ok &= xmit_ec(s, name, rb[i]->pk, ra[i]->pk, (int)s->opt[1]);
+				snprintf(name, sizeof(name), "c%zu0", i); ok &= xmit_bn(s, name, rb[i]->c[0], ra[i]->c[0], 0);
+				snprintf(name, sizeof(name), "c%zu1", i); ok &= xmit_bn(s, name, rb[i]->c[1], ra[i]->c[1], 0);
+				snprintf(name, sizeof(name), "r%zu0", i); ok &= xmit_bn(s, name, rb[i]->r[0], ra[i]->r[0], 0);
+				snprintf(name, sizeof(name), "r%zu1", i); ok &= xmit_bn(s, name, rb[i]->r[1], ra[i]->r[1], 0);
+			}
+			s->blen[0] = xmit_bytes(s, "msg", s->buf[0], s->msg, s->msg_len);
+			s->flag[0] = ok;
+			return 1;
+		}
+		case 4:
+			if (s->flag[0]) {
+				size_t used = s->blen[4];
+				log_ver(s, "ver", cp_etrs_ver(1, (const bn_t *)(s->b + 12 + used), (const bn_t *)(s->b + 16 + used), 4 - used,
+						(const etrs_t *)rb, s->blen[5], s->buf[0], s->blen[0], s->e[5]) == 1);
+				/* a higher threshold than the number of actual signers must not verify */
+				log_ver(s, "ver2", cp_etrs_ver(2, (const bn_t *)(s->b + 12 + used), (const bn_t *)(s->b + 16 + used), 4 - used,
+						(const etrs_t *)rb, s->blen[5], s->buf[0], s->blen[0], s->e[5]) == 1);
+			} else tr_printf("VER %d ver decode-failed\n", s->sid);
+			return 0;
+	}
+	return 0;
+}
+
+/* ---- same-message linkable extendable ring signature ---- */
+static int sch_smlers(sess_t *s) {
+	size_t want = (size_t)(1 + s->opt[4] % 3);
+	char name[12];
+	b3_init();
+	smlers_t *ra = sm_a[s->sid], *rb = sm_b[s->sid];
+	switch (s->phase) {
+		case 0:
+			log_rc(s, "genpp", cp_ers_gen(s->e[0]));
+			for (int i = 0; i < 3; i++) { log_rc(s, "genkey", cp_ers_gen_key(s->b[i], s->e[1 + i])); }
+			return 1;
+		case 1:
+			log_rc(s, "sig", cp_smlers_sig(s->b[4], ra[0], s->msg, s->msg_len, s->b[0], s->e[1], s->e[0]));
+			s->blen[5] = 1;
+			return 1;
+		case 2: {
+			size_t size = 1;
+			while (size < want) {
+				int rc = cp_smlers_ext(s->b[4], (smlers_t *)ra, &size, s->msg, s->msg_len, s->e[1 + size], s->e[0]);
+				log_rc(s, "ext", rc);
+				if (rc != RLC_OK) break;
+			}
+			s->blen[5] = size;
+			return 1;
+		}
+		case 3: {
+			int ok = 1;
+			size_t size = s->blen[5];
+			ok &= xmit_ec(s, "pp", s->e[5], s->e[0], (int)s->opt[1]);
+			ok &= xmit_bn(s, "td", s->b[12], s->b[4], 0);
+			for (size_t i = 0; i < size; i++) {
+				snprintf(name, sizeof(name), "h%zu", i); ok &= xmit_ec(s, name, rb[i]->sig->h, ra[i]->sig->h, (int)s->opt[1]);
+				snprintf(name, sizeof(name), "pk%zu", i); ok &= xmit_ec(s, name, rb[i]->sig->pk, ra[i]->sig->pk, (int)s->opt[1]);
+				snprintf(name, sizeof(name), "sc%zu0", i); ok &= xmit_bn(s, name, rb[i]->sig->c[0], ra[i]->sig->c[0], 0);
+				snprintf(name, sizeof(name), "sc%zu1", i); ok &= xmit_bn(s, name, rb[i]->sig->c[1], ra[i]->sig->c[1], 0);
+				snprintf(name, sizeof(name), "sr%zu0", i); ok &= xmit_bn(s, name, rb[i]->sig->r[0], ra[i]->sig->r[0], 0);
+				snprintf(name, sizeof(name), "sr%zu1", i); ok &= xmit_bn(s, name, rb[i]->sig->r[1], ra[i]->sig->r[1], 0);
+				snprintf(name, sizeof(name), "tau%zu", i); ok &= xmit_ec(s, name, rb[i]->tau, ra[i]->tau, (int)s->opt[1]);
+				snprintf(name, sizeof(name), "c%zu0", i); ok &= xmit_bn(s, name, rb[i]->c[0], ra[i]->c[0], 0);
+				snprintf(name, sizeof(name), "c%zu1", i); ok &= xmit_bn(s, name, rb[i]->c[1], ra[i]->c[1], 0);
+				snprintf(name, sizeof(name), "r%zu0", i); ok &= xmit_bn(s, name, rb[i]->r[0], ra[i]->r[0], 0);
+				snprintf(name, sizeof(name), "r%zu1", i); ok &= xmit_bn(s, name, rb[i]->r[1], ra[i]->r[1], 0);
+			}
+			s->blen[0] = xmit_bytes(s, "msg", s->buf[0], s->msg, s->msg_len);
+			s->flag[0] = ok;
+			return 1;
+		}
+		case 4:
+			if (s->flag[0]) log_ver(s, "ver", cp_smlers_ver(s->b[12], (smlers_t *)rb, s->blen[5], s->buf[0], s->blen[0], s->e[5]) == 1);
+			else tr_printf("VER %d ver decode-failed\n", s->sid);
+			return 0;
+	}
+	return 0;
+}
+
+/* ---- context-hiding multi-key linearly homomorphic signatures: 2 signers x 2 labels; opt[6] & 1 = BLS variant ---- */
+static int sch_cmlhs(sess_t *s) {
+	static const char *data = "database-identifier";
+	enum { SS = 2, LL = 2 };
+	static gt_t hs[NSESS][SS][RLC_TERMS];
+	static uint8_t prf[NSESS][SS][RLC_MD_LEN];
+	static g1_t cg1[NSESS][24];
+	static g2_t cg2[NSESS][16];
+	static bn_t cx[NSESS][SS][LL];
+	static int ready = 0;
+	int bls = (int)(s->opt[6] & 1);
+	b3_init();
+	if (!ready) {
+		for (int a = 0; a < NSESS; a++) {
+			for (int j = 0; j < SS; j++) {
+				for (int t = 0; t < RLC_TERMS; t++) { gt_null(hs[a][j][t]); gt_new(hs[a][j][t]); }
+				for (int l = 0; l < LL; l++) { bn_null(cx[a][j][l]); bn_new(cx[a][j][l]); }
+			}
+			for (int t = 0; t < 24; t++) { g1_null(cg1[a][t]); g1_new(cg1[a][t]); }
+			for (int t = 0; t < 16; t++) { g2_null(cg2[a][t]); g2_new(cg2[a][t]); }
+		}
+		ready = 1;
+	}
+	/* per-session objects: h cg1[0]; sig[j] cg1[1 + j]; a[j][l] cg1[3 + 2j + l]; c[j][l] cg1[7 + 2j + l]; r[j][l] cg1[11 + 2j + l];
+	 * as[j] cg1[15 + j]; cs[j] cg1[17 + j]; _r cg1[19]; received: _r' cg1[20], as' cg1[21..22] (cs' reuse 17..18 in place)
+	 * g2: z[j] cg2[j]; s[j][l] cg2[2 + 2j + l]; pk[j] cg2[6 + j]; y[j] cg2[8 + j]; _s cg2[10]; received _s' cg2[11], pk' 12..13, y' 14..15
+	 * bn: sk[j] b[j]; d[j] b[2 + j]; msg[j][l] b[4 + 2j + l]; m b[8]; received m' b[12] */
+	g1_t *G = cg1[s->sid];
+	g2_t *H = cg2[s->sid];
+	dig_t f[SS][LL];
+	for (int j = 0; j < SS; j++) { for (int l = 0; l < LL; l++) { f[j][l] = (dig_t)(1 + ((s->opt[7] >> (4 * (2 * j + l))) & 15)); } }
+	switch (s->phase) {
+		case 0:
+			log_rc(s, "init", cp_cmlhs_init(G[0]));
+			for (int j = 0; j < SS; j++) {
+				log_rc(s, "gen", cp_cmlhs_gen(cx[s->sid][j], hs[s->sid][j], LL, prf[s->sid][j], RLC_MD_LEN, s->b[j], H[6 + j], s->b[2 + j], H[8 + j], bls));
+			}
+			return 1;
+		case 1:
+			for (int j = 0; j < SS; j++) {
+				for (int l = 0; l < LL; l++) {
+					bn_rand_mod(s->b[4 + 2 * j + l], ord);
+					log_rc(s, "sig", cp_cmlhs_sig(G[1 + j], H[j], G[3 + 2 * j + l], G[7 + 2 * j + l], G[11 + 2 * j + l], H[2 + 2 * j + l],
+							s->b[4 + 2 * j + l], data, l, cx[s->sid][j][l], G[0], prf[s->sid][j], RLC_MD_LEN, s->b[j], s->b[2 + j], bls));
+				}
+			}
+			return 1;
+		case 2: {
+			/* evaluator */
+			g1_t t1;
+			g2_t t2;
+			g1_null(t1); g2_null(t2); g1_new(t1); g2_new(t2);
+			for (int j = 0; j < SS; j++) {
+				log_rc(s, "fun", cp_cmlhs_fun(G[15 + j], G[17 + j], (const g1_t *)(G + 3 + 2 * j), (const g1_t *)(G + 7 + 2 * j), f[j], LL));
+			}
+			log_rc(s, "evl", cp_cmlhs_evl(G[19], H[10], (const g1_t *)(G + 11), (const g2_t *)(H + 2), f[0], LL));
+			log_rc(s, "evl", cp_cmlhs_evl(t1, t2, (const g1_t *)(G + 13), (const g2_t *)(H + 4), f[1], LL));
+			g1_add(G[19], G[19], t1); g1_norm(G[19], G[19]);
+			g2_add(H[10], H[10], t2); g2_norm(H[10], H[10]);
+			bn_zero(s->b[8]);
+			for (int j = 0; j < SS; j++) {
+				for (int l = 0; l < LL; l++) {
+					bn_mul_dig(s->b[9], s->b[4 + 2 * j + l], f[j][l]);
+					bn_add(s->b[8], s->b[8], s->b[9]);
+					bn_mod(s->b[8], s->b[8], ord);
+				}
+			}
+			g1_free(t1); g2_free(t2);
+			return 1;
+		}
+		case 3: {
+			int ok = 1;
+			ok &= xmit_g1(s, "r", G[20], G[19], (int)s->opt[1]);
+			ok &= xmit_g2(s, "s", H[11], H[10], (int)s->opt[1]);
+			ok &= xmit_g1(s, "as0", G[21], G[15], (int)s->opt[1]);
+			ok &= xmit_g1(s, "as1", G[22], G[16], (int)s->opt[1]);
+			ok &= xmit_g2(s, "pk0", H[12], H[6], (int)s->opt[1]);
+			ok &= xmit_g2(s, "pk1", H[13], H[7], (int)s->opt[1]);
+			ok &= xmit_g2(s, "y0", H[14], H[8], (int)s->opt[1]);
+			ok &= xmit_g2(s, "y1", H[15], H[9], (int)s->opt[1]);
+			ok &= xmit_bn(s, "m", s->b[12], s->b[8], 0);
+			s->flag[0] = ok;
+			return 1;
+		}
+		case 4:
+			if (s->flag[0]) {
+				int label[LL] = { 0, 1 };
+				const gt_t *hp[SS] = { hs[s->sid][0], hs[s->sid][1] };
+				const dig_t *fp[SS] = { f[0], f[1] };
+				size_t flen[SS] = { LL, LL };
+				gt_t vk;
+				gt_null(vk); gt_new(vk);
+				int v1 = cp_cmlhs_ver(G[20], H[11], (const g1_t *)(G + 1), (const g2_t *)H, (const g1_t *)(G + 21), (const g1_t *)(G + 17),
+						s->b[12], data, G[0], label, hp, fp, flen, (const g2_t *)(H + 14), (const g2_t *)(H + 12), SS, bls) == 1;
+				log_ver(s, "ver", v1);
+				cp_cmlhs_off(vk, G[0], label, hp, fp, flen, SS);
+				int v2 = cp_cmlhs_onv(G[20], H[11], (const g1_t *)(G + 1), (const g2_t *)H, (const g1_t *)(G + 21), (const g1_t *)(G + 17),
+						s->b[12], data, G[0], vk, (const g2_t *)(H + 14), (const g2_t *)(H + 12), SS, bls) == 1;
+				log_ver(s, "onv", v2);
+				gt_free(vk);
+			} else tr_printf("VER %d ver decode-failed\n", s->sid);
+			return 0;
+	}
+	return 0;
+}
+
+/* ---- two-party Pointcheval-Sanders (both halves inside one call): MPC verifier vs plain verifier on recombined values ---- */
+static int sch_mpss(sess_t *s) {
+	b3_init();
+	mt_t (*tri)[2] = mt3[s->sid];
+	pt_t *pt = pc_tri[s->sid];
+	g1_t *A = mg1[s->sid];
+	g2_t *X = mg2[s->sid];
+	gt_t *E = mgt[s->sid];
+	/* u[2] b[0..1], v[2] b[2..3], m[2] b[4..5]; h X[0], x[2] X[1..2], y[2] X[3..4]; a A[0], b[2] A[1..2] */
+	switch (s->phase) {
+		case 0:
+			pc_map_tri(pt);
+			for (int i = 0; i < 3; i++) { mpc_mt_gen(tri[i], ord); }
+			gt_exp_gen(E[0], tri[2][0]->b); gt_exp_gen(E[1], tri[2][1]->b);
+			gt_exp_gen(E[2], tri[2][0]->c); gt_exp_gen(E[3], tri[2][1]->c);
+			tri[2][0]->bt = &E[0]; tri[2][1]->bt = &E[1];
+			tri[2][0]->ct = &E[2]; tri[2][1]->ct = &E[3];
+			log_rc(s, "gen", cp_mpss_gen(s->b, s->b + 2, X[0], X + 1, X + 3));
+			log_rc(s, "bct", cp_mpss_bct(X + 1, X + 3));
+			return 1;
+		case 1:
+			bn_rand_mod(s->b[4], ord); bn_rand_mod(s->b[5], ord);
+			log_rc(s, "sig", cp_mpss_sig(A[0], A + 1, (const bn_t *)(s->b + 4), (const bn_t *)s->b, (const bn_t *)(s->b + 2), tri[0], tri[1]));
+			return 1;
+		case 2: {
+			int ok = 1;
+			ok &= xmit_g1(s, "a", A[4], A[0], (int)s->opt[1]);
+			ok &= xmit_g1(s, "b0", A[5], A[1], (int)s->opt[1]);
+			ok &= xmit_g1(s, "b1", A[6], A[2], (int)s->opt[1]);
+			ok &= xmit_bn(s, "m0", s->b[12], s->b[4], 0);
+			ok &= xmit_bn(s, "m1", s->b[13], s->b[5], 0);
+			s->flag[0] = ok;
+			return 1;
+		}
+		case 3:
+			if (s->flag[0]) {
+				cp_mpss_ver(E[4], A[4], (const g1_t *)(A + 5), (const bn_t *)(s->b + 12), X[0], X[1], X[3], tri[2], pt);
+				log_ver(s, "ver", gt_is_unity(E[4]) == 1);
+				/* the plain verifier on the recombined values must agree */
+				bn_add(s->b[14], s->b[12], s->b[13]); bn_mod(s->b[14], s->b[14], ord);
+				g1_add(A[7], A[5], A[6]); g1_norm(A[7], A[7]);
+				log_ver(s, "plain", cp_pss_ver(A[4], A[7], s->b[14], X[0], X[1], X[3]) == 1);
+			} else tr_printf("VER %d ver decode-failed\n", s->sid);
+			return 0;
+	}
+	return 0;
+}
+
+/* ---- subgroup Paillier: both encryptors ---- */
+static int sch_shpe(sess_t *s) {
+	b3_init();
+	switch (s->phase) {
+		case 0: { int rc = cp_shpe_gen(sh_pub[s->sid], sh_prv[s->sid], 128, 512); log_rc(s, "gen", rc); return rc == RLC_OK; }
+		case 1:
+			bn_rand(s->b[0], RLC_POS, 100);
+			if (s->opt[5] == 1) bn_zero(s->b[0]);
+			if (s->opt[5] == 2) { bn_set_2b(s->b[0], 120); bn_sub_dig(s->b[0], s->b[0], 1); }
+			log_out_bn(s, "pt", s->b[0]);
+			log_rc(s, "enc", (s->opt[6] & 1) ? cp_shpe_enc_prv(s->b[1], s->b[0], sh_prv[s->sid]) : cp_shpe_enc(s->b[1], s->b[0], sh_pub[s->sid]));
+			return 1;
+		case 2: s->flag[0] = xmit_bn(s, "ct", s->b[12], s->b[1], 0); return 1;
+		case 3:
+			if (s->flag[0]) {
+				int rc = cp_shpe_dec(s->b[2], s->b[12], sh_prv[s->sid]);
+				log_rc(s, "dec", rc);
+				if (rc == RLC_OK && err_get_code() == RLC_OK) log_out_bn(s, "dec", s->b[2]);
+			}
+			return 0;
+	}
+	return 0;
+}
+
+/* ---- MPC scalar multiplication in G1 and MPC pairing from a pairing triple: two parties, explicit broadcast ---- */
+static int sch_mpcg1(sess_t *s) {
+	b3_init();
+	mt_t *tri = mt3[s->sid][0];
+	g1_t *A = mg1[s->sid];
+	/* k shares b[0..1]; p shares A[0..1]; expected A[2]; b1/c1 A[3..6]; public l b[2..3], d A[7]/A... */
+	static g1_t D[NSESS][4];
+	static int ready = 0;
+	if (!ready) { for (int a = 0; a < NSESS; a++) { for (int j = 0; j < 4; j++) { g1_null(D[a][j]); g1_new(D[a][j]); } } ready = 1; }
+	g1_t *d = D[s->sid];
+	switch (s->phase) {
+		case 0:
+			mpc_mt_gen(tri, ord);
+			g1_rand(A[0]); bn_rand_mod(s->b[0], ord);
+			g1_mul(A[2], A[0], s->b[0]);
+			g1_rand(A[1]); g1_sub(A[0], A[0], A[1]); g1_norm(A[0], A[0]);
+			bn_rand_mod(s->b[1], ord);
+			bn_sub(s->b[0], s->b[0], s->b[1]);
+			if (bn_sign(s->b[0]) == RLC_NEG) bn_add(s->b[0], s->b[0], ord);
+			bn_mod(s->b[0], s->b[0], ord);
+			g1_mul_gen(A[3], tri[0]->b); g1_mul_gen(A[4], tri[1]->b);
+			g1_mul_gen(A[5], tri[0]->c); g1_mul_gen(A[6], tri[1]->c);
+			tri[0]->b1 = &A[3]; tri[1]->b1 = &A[4]; tri[0]->c1 = &A[5]; tri[1]->c1 = &A[6];
+			return 1;
+		case 1: g1_mul_lcl(s->b[2], d[0], s->b[0], A[0], tri[0]); return 1;
+		case 2: g1_mul_lcl(s->b[3], d[1], s->b[1], A[1], tri[1]); return 1;
+		case 3: {
+			/* each party receives the other's public values: party 0's view (b[4], b[5]), (d[2]...) */
+			int ok = 1;
+			bn_copy(s->b[4], s->b[2]);
+			ok &= xmit_bn(s, "l1", s->b[5], s->b[3], 0);
+			g1_copy(A[7], d[0]);
+			ok &= xmit_g1(s, "d1", d[3], d[1], (int)s->opt[1]);
+			s->flag[0] = ok;
+			return 1;
+		}
+		case 4:
+			if (s->flag[0]) {
+				/* party 0 finishes with what it received; party 1 (honest view) with the true values */
+				g1_t q[2];
+				bn_t l[2];
+				for (int i = 0; i < 2; i++) { g1_null(q[i]); g1_new(q[i]); bn_null(l[i]); bn_new(l[i]); }
+				bn_copy(l[0], s->b[4]); bn_copy(l[1], s->b[5]);
+				g1_copy(q[0], A[7]); g1_copy(q[1], d[3]);
+				g1_mul_bct(l, q);
+				g1_mul_mpc(q[0], l[0], q[0], tri[0], 0);
+				bn_copy(l[0], s->b[2]); bn_copy(l[1], s->b[3]);
+				g1_copy(d[2], d[0]); g1_copy(q[1], d[1]);
+				{
+					g1_t qq[2];
+					g1_null(qq[0]); g1_null(qq[1]); g1_new(qq[0]); g1_new(qq[1]);
+					g1_copy(qq[0], d[0]); g1_copy(qq[1], d[1]);
+					g1_mul_bct(l, qq);
+					g1_mul_mpc(q[1], l[1], qq[1], tri[1], 1);
+					g1_free(qq[0]); g1_free(qq[1]);
+				}
+				g1_add(q[0], q[0], q[1]); g1_norm(q[0], q[0]);
+				tr_printf("OUT %d match v=%02x\n", s->sid, g1_cmp(q[0], A[2]) == RLC_EQ);
+				for (int i = 0; i < 2; i++) { g1_free(q[i]); bn_free(l[i]); }
+			}
+			return 0;
+	}
+	return 0;
+}
+
+static int sch_mpcpc(sess_t *s) {
+	b3_init();
+	pt_t *t = pc_tri[s->sid];
+	g1_t *P = mg1[s->sid];
+	g2_t *Q = mg2[s->sid];
+	gt_t *E = mgt[s->sid];
+	switch (s->phase) {
+		case 0:
+			pc_map_tri(t);
+			g1_rand(P[0]); g2_rand(Q[0]);
+			pc_map(E[0], P[0], Q[0]);
+			g1_rand(P[1]); g1_sub(P[0], P[0], P[1]); g1_norm(P[0], P[0]);
+			g2_rand(Q[1]); g2_sub(Q[0], Q[0], Q[1]); g2_norm(Q[0], Q[0]);
+			return 1;
+		case 1: pc_map_lcl(P[2], Q[2], P[0], Q[0], t[0]); return 1;
+		case 2: pc_map_lcl(P[3], Q[3], P[1], Q[1], t[1]); return 1;
+		case 3: {
+			int ok = 1;
+			/* party 0 receives party 1's (d, e) over the wire */
+			ok &= xmit_g1(s, "d1", P[5], P[3], (int)s->opt[1]);
+			ok &= xmit_g2(s, "e1", Q[5], Q[3], (int)s->opt[1]);
+			s->flag[0] = ok;
+			return 1;
+		}
+		case 4:
+			if (s->flag[0]) {
+				g1_t d[2];
+				g2_t e[2];
+				for (int i = 0; i < 2; i++) { g1_null(d[i]); g1_new(d[i]); g2_null(e[i]); g2_new(e[i]); }
+				g1_copy(d[0], P[2]); g1_copy(d[1], P[5]); g2_copy(e[0], Q[2]); g2_copy(e[1], Q[5]);
+				pc_map_bct(d, e);
+				pc_map_mpc(E[1], d[0], e[0], t[0], 0);
+				g1_copy(d[0], P[2]); g1_copy(d[1], P[3]); g2_copy(e[0], Q[2]); g2_copy(e[1], Q[3]);
+				pc_map_bct(d, e);
+				pc_map_mpc(E[2], d[1], e[1], t[1], 1);
+				gt_mul(E[3], E[1], E[2]);
+				tr_printf("OUT %d match v=%02x\n", s->sid, gt_cmp(E[3], E[0]) == RLC_EQ);
+				for (int i = 0; i < 2; i++) { g1_free(d[i]); g2_free(e[i]); }
+			}
+			return 0;
+	}
+	return 0;
+}
+
 #define EXTRA_SCHEMES \
 	{ "bbs", sch_bbs, 1, 0, 0 }, { "zss", sch_zss, 1, 0, 0 }, { "cls", sch_cls, 1, 0, 0 }, { "cli", sch_cli, 1, 0, 0 }, \
 	{ "clb", sch_clb, 1, 0, 0 }, { "pss", sch_pss, 1, 0, 0 }, { "psb", sch_psb, 1, 0, 0 }, { "vbnn", sch_vbnn, 0, 0, 0 }, \
@@ -977,4 +1410,6 @@ static int sch_ped(sess_t *s) {
 	{ "ghpe", sch_ghpe, 0, 0, 0 }, { "bdpe", sch_bdpe, 0, 0, 0 }, { "rabin", sch_rabin, 0, 0, 0 }, { "ibe", sch_ibe, 1, 0, 0 }, \
 	{ "bgn", sch_bgn, 1, 0, 0 }, { "sokaka", sch_sokaka, 1, 0, 0 }, { "mt", sch_mt, 0, 0, 0 }, { "pdpub", sch_pdpub, 1, 0, 0 }, \
 	{ "lvpub", sch_pdpub, 1, 0, 0 }, { "pdprv", sch_pdprv, 1, 0, 0 }, { "lvprv", sch_pdprv, 1, 0, 0 }, { "pbpsi", sch_pbpsi, 1, 0, 0 }, \
-	{ "ped", sch_ped, 0, 0, 0 },
+	{ "ped", sch_ped, 0, 0, 0 }, \
+	{ "etrs", sch_etrs, 0, 0, 0 }, { "smlers", sch_smlers, 0, 0, 0 }, { "cmlhs", sch_cmlhs, 1, 0, 0 }, { "mpss", sch_mpss, 1, 0, 0 }, \
+	{ "shpe", sch_shpe, 0, 0, 0 }, { "mpcg1", sch_mpcg1, 1, 0, 0 }, { "mpcpc", sch_mpcpc, 1, 0, 0 },
